@@ -316,6 +316,7 @@ def check(cond, label=''):
     """the property's assertion: ask the solver for pc and not cond"""
     c = CTX
     t = cond.t if hasattr(cond, 't') else bool(cond)
+    c.nasserts = getattr(c, 'nasserts', 0) + 1
     if c.concrete:
         c.checks.append((label, bool(t)))
         if not t:
